@@ -77,7 +77,7 @@ func c09Profiles(tier Tier) []*explore.Profile {
 		Seeds: func(env *world.Env) []explore.SeedState {
 			var out []explore.SeedState
 			for _, ans := range []int8{world.PayYes, world.PayNo, world.PayError} {
-				b := &uni.Builder{Env: env, W: uni.Seed(env, "mixed")}
+				b := uni.SeedBuilder(env, "mixed")
 				// the contract sender gets its tokens through exempt transfers
 				b.Must(uni.ESDTTransfer(uni.A0, uni.S0, uni.F, 1, []byte("f")))
 				b.Must(uni.NFTTransfer(uni.A0, uni.S0, uni.S, 1, 1, []byte("f")))
@@ -85,16 +85,16 @@ func c09Profiles(tier Tier) []*explore.Profile {
 				for _, d := range [][]byte{uni.B0, uni.S0, uni.C1, uni.S1c} {
 					w.Payable[string(d)] = ans
 				}
-				out = append(out, explore.SeedState{Name: fmt.Sprintf("answer-%d", ans), W: w})
+				out = append(out, explore.SeedState{Name: fmt.Sprintf("answer-%d", ans), W: w, Legs: b.Legs, Failed: b.Failed})
 			}
 			// per-address mixed table: users non-payable, contracts payable
-			b := &uni.Builder{Env: env, W: uni.Seed(env, "mixed")}
+			b := uni.SeedBuilder(env, "mixed")
 			w := b.W.Clone()
 			w.Payable[string(uni.B0)] = world.PayNo
 			w.Payable[string(uni.C1)] = world.PayError
 			w.Payable[string(uni.S0)] = world.PayYes
 			w.Payable[string(uni.S1c)] = world.PayYes
-			out = append(out, explore.SeedState{Name: "answer-mixed", W: w})
+			out = append(out, explore.SeedState{Name: "answer-mixed", W: w, Legs: b.Legs, Failed: b.Failed})
 			return out
 		},
 		Menu: func(w *world.World) []world.Action { return payableMenu(w, o) },
@@ -164,13 +164,13 @@ func c10Profiles(tier Tier) []*explore.Profile {
 	shapes := &explore.Profile{
 		Name: "shapes", EnvCfg: ledgerEnv(2), Depth: depth, Deadline: tierDeadline(tier), Oracles: mk(),
 		Seeds: func(env *world.Env) []explore.SeedState {
-			b := &uni.Builder{Env: env, W: uni.Seed(env, "mixed")}
+			b := uni.SeedBuilder(env, "mixed")
 			b.Must(uni.ESDTTransfer(uni.A0, uni.S0, uni.F, 1, []byte("f")))
 			b.Must(uni.NFTTransfer(uni.A0, uni.S0, uni.S, 1, 1, []byte("f")))
 			w := b.W.Clone()
 			w.Payable[string(uni.S0)] = world.PayYes
 			w.Payable[string(uni.S1c)] = world.PayYes
-			return []explore.SeedState{{Name: "mixed+contract-holdings", W: w}}
+			return []explore.SeedState{{Name: "mixed+contract-holdings", W: w, Legs: b.Legs, Failed: b.Failed}}
 		},
 		Menu: func(w *world.World) []world.Action { return shapesMenu(w, o) },
 	}
